@@ -87,6 +87,43 @@ theorem integer_rejects (d : Dec)
   | none => rfl
   | some k => exact absurd ⟨k, (Dec.toI64_spec d k).mp hk⟩ h
 
+/-! ## Conversion in, accessor out: the composition a user of the API relies on -/
+
+/-- **Every `i8 … i64` survives `Value::from(n).integer()` unchanged** (and every `u8 … u64` up to
+`i64::MAX`). -/
+theorem int_roundtrip (n : Int) (h : -9223372036854775808 ≤ n ∧ n ≤ 9223372036854775807) :
+    (fromInt n).integer = .ok n := by
+  unfold fromInt Value.ofInt
+  rw [integer_iff]
+  have h0 := ofInt_num n
+  rw [h0.1, h0.2]
+  exact ⟨by simp, h⟩
+
+/-- A `u64` above `i64::MAX` converts exactly (`from_int`) and `integer()` then *fails* — it never
+wraps to a negative number or saturates. -/
+theorem u64_above_i64_rejected (n : Int) (h : 9223372036854775807 < n) :
+    (fromInt n).integer = .err .invalidInteger := by
+  unfold fromInt Value.ofInt
+  apply integer_rejects
+  rintro ⟨m, hm, _, hhi⟩
+  have h0 := ofInt_num n
+  rw [h0.1, h0.2] at hm
+  simp at hm
+  omega
+
+/-- `Value::from(n).decimal()` is the number with mantissa |n|, scale 0 and n's sign. -/
+theorem int_decimal_roundtrip (n : Int) : (fromInt n).decimal = .ok (Dec.ofInt n) := rfl
+
+/-- The typed accessors never confuse an integer with another variant. -/
+theorem int_not_other (n : Int) :
+    (fromInt n).string = .err .shouldBeString ∧ (fromInt n).bool' = .err .shouldBeBool ∧
+    (fromInt n).list' = .err .shouldBeList := ⟨rfl, rfl, rfl⟩
+
+example : (fromInt (-9223372036854775808)).integer = .ok (-9223372036854775808) :=
+  int_roundtrip _ (by decide)
+example : (fromInt 18446744073709551615).integer = .err .invalidInteger :=
+  u64_above_i64_rejected _ (by decide)
+
 /-! Non-vacuity: `3.0`, `1.5 * 2 = 3.0`, `-0.0`; a fractional and an out-of-range value. -/
 example : (Value.num ⟨false, 30, 1⟩).integer = .ok 3 := by rfl
 example : (Value.num ⟨true, 0, 1⟩).integer = .ok 0 := by rfl
